@@ -285,4 +285,47 @@ theorem splitOn_none (sep : Char) (t : Str) (h : sep ∉ t) : splitOn sep t = [t
   simp
 
 
+
+theorem splitWsAux_tokens (s cur : Str) (acc : List Str) (hcur : ∀ c ∈ cur, isWs c = false) :
+    ∀ t ∈ splitWsAux s cur acc, t ∈ acc ∨ IsTok t := by
+  induction s generalizing cur acc with
+  | nil =>
+    intro t ht
+    unfold splitWsAux at ht
+    split at ht
+    · exact Or.inl (List.mem_reverse.mp ht)
+    · rename_i hne
+      rcases List.mem_cons.mp (List.mem_reverse.mp ht) with e | e
+      · right; subst e
+        refine ⟨by intro h; apply hne; simpa using h, fun c hc => hcur c (List.mem_reverse.mp hc)⟩
+      · exact Or.inl e
+  | cons c cs ih =>
+    intro t ht
+    unfold splitWsAux at ht
+    split at ht
+    · -- white space: close the current token
+      have := ih [] _ (by intro d hd; cases hd) t ht
+      rcases this with h | h
+      · split at h
+        · exact Or.inl h
+        · rename_i hne
+          rcases List.mem_cons.mp h with e | e
+          · right; subst e
+            refine ⟨by intro h'; apply hne; simpa using h', fun d hd => hcur d (List.mem_reverse.mp hd)⟩
+          · exact Or.inl e
+      · exact Or.inr h
+    · rename_i hws
+      exact ih (c :: cur) acc (by
+        intro d hd
+        rcases List.mem_cons.mp hd with e | e
+        · subst e; simpa using hws
+        · exact hcur d e) t ht
+
+theorem splitWs_tokens (s : Str) : ∀ t ∈ splitWs s, IsTok t := by
+  intro t ht
+  rcases splitWsAux_tokens s [] [] (by intro c hc; cases hc) t ht with h | h
+  · cases h
+  · exact h
+
+
 end RtcModel.Text
